@@ -208,8 +208,29 @@ def model_term(case):
         return INVALID
 
 
+# The qualifier mapping and the header mapping are compared as MAPPINGS: the order of their keys is not an observable of the property
+# (the Coq view fixes it - first use -, the comparison does not depend on it): both sides are put in key order.
+def _c_hdr(h):
+    return sorted(([k, _c_hdr(v) if isinstance(v, list) else v] for k, v in h), key=lambda kv: kv[0])
+
+
+def _c_ft(f):
+    return [f[0], f[1], sorted(f[2], key=lambda kv: kv[0]), f[3]]
+
+
+def _c_recs(x):
+    if not isinstance(x, list):
+        return x
+    return [[r[0], r[1], None if r[2] is None else [_c_ft(f) for f in r[2]], _c_hdr(r[3])] for r in x]
+
+
+def _c_fts(x):
+    return [_c_ft(f) for f in x] if isinstance(x, list) else x
+
+
 def split_model(case, m):
     wf, ln, h, viewok, res = m
+    res = [_c_recs(res[0]), _c_fts(res[1])]
     # raw texts are never in the domain of the theorems (wf is False) but are compared exactly (see agree)
     return bool(wf) or 'raw' in case, {'wf': bool(wf), 'len': ln, 'hash': h, 'viewok': viewok, 'res': [res[0], res[0], res[1]]}
 
@@ -222,13 +243,13 @@ def _ft(ft):
     for k in g:
         v = g[k]
         quals.append([k, list(v) if isinstance(v, list) else v])
-    return [ft.type, [[l.start, l.stop, str(l.strand), int(l.defect)] for l in ft.locs], quals, ft.meta.get('seqid')]
+    return [ft.type, [[l.start, l.stop, str(l.strand), int(l.defect)] for l in ft.locs], sorted(quals, key=lambda kv: kv[0]), ft.meta.get('seqid')]
 
 
 def _attr(a):
     """header metadata: [[key, str | nested], ...] in the order of the Attr"""
     from sugar.core.meta import Attr
-    return [[k, _attr(a[k]) if isinstance(a[k], Attr) else a[k]] for k in a]      # not .items(): a key may shadow it (F20)
+    return sorted(([k, _attr(a[k]) if isinstance(a[k], Attr) else a[k]] for k in a), key=lambda kv: kv[0])      # not .items(): a key may shadow it (F20)
 
 
 def _seq(s):
@@ -375,7 +396,7 @@ def exp_hdr(r):
             v[line[:12].strip().lower()] = ' '.join(groups)
         d['origin'] = v
     d.pop('reference', None)
-    ser = lambda x: [[k, ser(v)] for k, v in x.items()] if isinstance(x, dict) else x
+    ser = lambda x: sorted([k, ser(v)] for k, v in x.items()) if isinstance(x, dict) else x
     return ser(d)
 
 
@@ -425,7 +446,7 @@ def expected(case):
                     quals[q[1]] = q[2]
             if 'translation' in excl:
                 quals.pop('translation', None)
-            fts.append([f['key'], [list(l) for l in ls], [[k, v] for k, v in quals.items()], rid])
+            fts.append([f['key'], [list(l) for l in ls], sorted(([k, v] for k, v in quals.items()), key=lambda kv: kv[0]), rid])
         origin = r.get('origin', True) and r.get('features', True)     # residues and features are only found after a FEATURES line
         seq = '' if 'seq' in excl or not origin else r['seq'].upper()
         if 'fts' in excl or not origin:           # the exclude option removes exactly what it names; no ORIGIN line: no feature list
@@ -831,7 +852,7 @@ def model_term(case):
 def split_model(case, m):
     if not _is_hist(case):
         return _single['split_model'](case, m)
-    steps = [{'wf': bool(x[0]), 'len': x[1], 'hash': x[2], 'viewok': x[3], 'res': [x[4][0], x[4][0], x[4][1]]} for x in m]
+    steps = [{'wf': bool(x[0]), 'len': x[1], 'hash': x[2], 'viewok': x[3], 'res': [_c_recs(x[4][0]), _c_recs(x[4][0]), _c_fts(x[4][1])]} for x in m]
     wf = all(x['wf'] for x in steps) and len(steps) == len(case['steps'])
     return wf, {'wf': wf, 'steps': steps}
 
@@ -1197,15 +1218,17 @@ LEVEL_TEXT = ('Machine-checked Coq theorems about the Gallina model of sugar/_io
               'and complement(join(b,a)) give the same 5-prime to 3-prime ordered tuple (descending stops on the minus strand); '
               'C10_wrapped_loc/C10_split_toplevel cover wrapping at any break point and the nesting-aware comma split; C10_feature_table the whole '
               'feature-table entry (key line, wrapped location, qualifiers of every kind) from any reader state; C10_exclude_exact says exclude '
-              'removes exactly what it names and that other names have no effect; C10_read_fts_agrees ties read_fts to read/iter_. Outside the '
+              'removes exactly what it names and that other names have no effect; C10_exclude_any_text proves the same on ARBITRARY text for translation '
+              'and seq (the result is the result without the name with exactly that part removed) and that the tuple matters only through the '
+              'membership of its three names; C10_read_fts_agrees ties read_fts to read/iter_. Outside the '
               'one-strand / ORIGIN domain the behaviour is proved as it is: C10_read_errors / C10_err_class_spec (the first record that is not '
               'well-formed has a feature on both strands: ValueError from that record; or it has features but no ORIGIN line: AssertionError at //; '
               'with fts excluded both kinds of record are inside the domain of C10_read_render and read normally). The tie of the model to the '
               'Python code (and the read/iter_/read_fts dispatch in sugar/_io/main.py) is differential testing on rendered and mutated files on every run.')
-LEVEL_NOTE = ('All 21 theorems are closed under the global context. Proved for all inputs: C10_read_render, C10_view_spec, C10_exclude_exact, '
+LEVEL_NOTE = ('All 22 theorems are closed under the global context. Proved for all inputs: C10_read_render, C10_view_spec, C10_exclude_exact, '
               'C10_read_fts_agrees, C10_parse_print_loc, C10_single_loc_spec, C10_loc_sem, C10_split_toplevel, C10_feature_locs, C10_sort_locs, '
               'C10_wrapped_loc, C10_feature_table (replaces the location-only C10_feature_table_locs_partial), C10_quals_dict, C10_header_attrs, '
-              'C10_parse_total, C10_reader_total, C10_read_errors, C10_err_class_spec, C10_strand_order, C10_remote_rejected; C10_read_render_box (finite box by computation, kept as a regression anchor, '
+              'C10_parse_total, C10_reader_total, C10_exclude_any_text, C10_read_errors, C10_err_class_spec, C10_strand_order, C10_remote_rejected; C10_read_render_box (finite box by computation, kept as a regression anchor, '
               'subsumed by C10_read_render; formerly named ..._box_partial). Tested only (correspondence): that sugar.read / iter_ / read_fts behave '
               'as the modelled iter_genbank / read_fts_genbank (incl. the dispatch and BioBasket/FeatureList wrapping), and that the Python renderer '
               'equals the Coq renderer (length + hash per case). wf_C10 contains two checked side conditions that are implied by its character classes '
@@ -1230,6 +1253,8 @@ LEVEL_NOTE = ('All 21 theorems are closed under the global context. Proved for a
               'excluded (F20). Mutated raw files (8% of the random stream) are outside every theorem but are compared EXACTLY with the model since '
               'round 7 (same value, or both raise), because the model follows the reader line by line on any Latin-1 text; so are the layout stream (CRLF, '
               'trailing blanks, indented terminator, blank lines, re-indented header lines) and the missing-FEATURES stream. '
+              'The qualifier mapping and the header mapping are compared as mappings (key order is fixed by the Coq view - first use - but is not an '
+              'observable of the property, so both sides are put in key order before the comparison). '
               'The defect exclude_fts found by this check is fixed in /repo (da56cff) and in the domain. '
               'Statement coverage of the modelled functions in the quick tier: genbank.py _split_toplevel/_parse_locs/_parse_single_loc/'
               'read_fts_genbank 100%, iter_genbank 124/125 (line 236 "assert False" is unreachable: parse is always one of three states); '
